@@ -248,27 +248,44 @@ def _line_uw(d):
 
 
 def _line_splits(thorough):
-    live = ["7", "7 c", "7 c a", "7 c :a a", "7 c a a a a a a a a a a a a a a a a a"]
-    other = ["dd", "-1 c a a a", "3 c a a a a a"]
-    if thorough:
-        live += ["7 ", "7 c ", "7 c aa a", "7 c a :", "7  c\\ta  a", "7 c a a a a", "7 ca a", ":7 c a", "7 :c"]
-        other += ["d c a", "-1 c", "-1", "c", "007 c a", "7x c a"]
-        live += ["7 c a a", "7 c a a a", "7 c aaaa aaaa", "7 c a a a a a a a a a a a a a a a a", "7 c a a a a a a a a a a a a a a a :a a",
-                 "7 c aaaaaaaaaaaaaaaaaaaaaaaaaaaaaaaaaaaaaaaaaaaaaaaaaaaaaaaaaaaaaaaaaaaaaa"]
-        other += ["-1 c a a a a", "-1 c a a", "+7 c a", " 7 c a", "99999999999 c a"]
+    """Line layouts x command letters.  'c' in a layout is the command letter (concrete per query,
+    VP_CMD), 'a' a symbolic argument byte, 'd' a symbolic digit."""
+    cmds = "CDNdPUunHTEMXx?z"        # every command of the protocol and an unknown letter
     out = []
-    for i, t in enumerate(live):
-        d = {"_name": "live%02d" % i, "VP_TMPL": '"%s"' % t}
-        if t.startswith("7 ") or t == "7" or t.startswith("7  "):
-            d["VP_ID_LIVE"] = None
+
+    def add(name, tmpl, cmd=None, **kw):
+        d = {"_name": name, "VP_TMPL": '"%s"' % tmpl}
+        if cmd is not None:
+            d["VP_CMD"] = "'%s'" % cmd
+        d.update(kw)
         out.append(d)
-    for i, (t1, t2) in enumerate([("7 U a a a", "7 c"), ("7 c a a", "7 c")] + ([("-1 X a a a a", "7 c a"), ("7 c", "7")] if thorough else [])):
-        out.append({"_name": "pair%02d" % i, "VP_TMPL": '"%s"' % t1, "VP_TMPL2": '"%s"' % t2, "VP_ID_LIVE": None})
-    for i, t in enumerate(other):
-        d = {"_name": "other%02d" % i, "VP_TMPL": '"%s"' % t}
-        if t[0] == "3":
-            d["VP_ID_UNKNOWN"] = None
-        out.append(d)
+    nm = {"?": "q", "z": "zz"}
+    for c in cmds:
+        n = nm.get(c, c)
+        add("bare_%s" % n, "7 c", c, VP_ID_LIVE=None)                 # no parameter at all
+        add("args_%s" % n, "7 c a :a", c, VP_ID_LIVE=None)            # one word and a trailing argument
+    add("id_only", "7", VP_ID_LIVE=None)
+    add("digits", "dd")
+    for c in "UXE":
+        add("many_%s" % c, "7 c a a a a a a a a a a a a a a a a a", c, VP_ID_LIVE=None)   # 17 arguments: the 16-slot vector
+    for c in "Xx?N":
+        add("noid_%s" % nm.get(c, c), "-1 c a a a", c)
+    for c in "NDC":
+        add("unknown_id_%s" % c, "3 c a a a a a", c, VP_ID_UNKNOWN=None)
+    for c2 in "NPn":
+        add("pair_U_%s" % c2, "7 U a a a", None, VP_TMPL2='"7 c"', VP_CMD2="'%s'" % c2, VP_ID_LIVE=None)
+    if thorough:
+        for c in cmds:
+            n = nm.get(c, c)
+            add("one_%s" % n, "7 c a", c, VP_ID_LIVE=None)
+            add("four_%s" % n, "7 c a a a a", c, VP_ID_LIVE=None)
+            add("tabs_%s" % n, "7  c\\ta  a", c, VP_ID_LIVE=None)
+        add("sym_cmd", "7 c a", None, VP_ID_LIVE=None)                # command letter symbolic: all handlers in one formula
+        add("colon_first", ":7 N a", None)
+        add("plus_id", "+7 N a", None)
+        add("long_arg", "7 N aaaaaaaaaaaaaaaaaaaaaaaaaaaaaaaaaaaaaaaaaaaaaaaaaaaaaaaaaaaaaaaaaaaaaa", None, VP_ID_LIVE=None)
+        for c2 in "uHT":
+            add("pair_X_%s" % c2, "-1 X a a a a", None, VP_TMPL2='"7 c a"', VP_CMD2="'%s'" % c2)
     return out
 
 
